@@ -263,6 +263,15 @@ func (r *runner) doWrite(s int, side string, want *frameT, wantOk *bool) bool {
 	r.w.mu.Lock()
 	if alive && len(x.ep.peerEnd.inflight) == nIn+1 {
 		x.ep.peerEnd.inflight[nIn].abs = f
+		if f.T == "cred" {
+			known := false
+			for _, g := range r.recorded {
+				known = known || g == f
+			}
+			if !known {
+				r.recorded = append(r.recorded, f)
+			}
+		}
 	} else if alive {
 		r.w.driftf("Write(%d%s): frame did not enter the channel", s, side)
 	}
@@ -927,6 +936,14 @@ func (r *runner) randomRun(opt randOpts) {
 						for _, f := range replacements(x.cfg, x.peerCfg, head.abs) {
 							f := f
 							acts = append(acts, act{1, func() bool { faults++; return r.doReplace(k+1, side, f, r.rnd.Intn(64)) }})
+						}
+						if head.abs.T == "cred" { // a credentials frame observed earlier, replayed as it was
+							for _, g := range r.recorded {
+								if g != head.abs {
+									g := tagged(g, "recorded")
+									acts = append(acts, act{4, func() bool { faults++; return r.doReplace(k+1, side, g, 0) }})
+								}
+							}
 						}
 					}
 					if opt.kinds["inject"] && parked == "R" && head == nil && !se.killed {
